@@ -279,6 +279,12 @@ def jacobian_template_items(tier):
     cand = _find(ss, r"data\[jistart \+ ")
     ok = len(cand) == 1 and cand[0].loop_iters()[-1:] == ["ode.jac.vals"]
     items.append(item("tmpl/cvode-cusparse/kernel-data-site", ok, f"{cand}"))
+    # batched kernel: cell `cur` owns the block [cur*NNZ, (cur+1)*NNZ) of the value array and the block [cur*NEQUATIONS, ...) of the state
+    plain = re.sub(r"/\*.*?\*/|//[^\n]*", " ", src, flags=re.S)
+    jdef = re.findall(r"\bint\s+jistart\s*=\s*([^;]+);", plain)
+    ydef = re.findall(r"\bint\s+yistart\s*=\s*([^;]+);", plain)
+    items.append(item("tmpl/cvode-cusparse/kernel-value-block-offset-is-cur-times-NNZ", bool(jdef) and all(re.sub(r"\s+", "", d) == "cur*NNZ" for d in jdef), f"jistart = {jdef}"))
+    items.append(item("tmpl/cvode-cusparse/kernel-state-block-offset-is-cur-times-NEQUATIONS", bool(ydef) and all(re.sub(r"\s+", "", d) == "cur*NEQUATIONS" for d in ydef), f"yistart = {ydef}"))
     if ok:
         s = cand[0]
         lv = s.loops[-1][0].name
